@@ -354,6 +354,8 @@ def initialize_lua(ctx: "Wtp") -> None:
         phase1_result: "_LuaTable" = lua.execute(f.read())
         set_loader = phase1_result[1]
         clear_loaddata_cache = phase1_result[2]
+        ctx.lua_set_timeout = phase1_result[3]
+        ctx.lua_clear_timeout = phase1_result[4]
         # Call the function that sets the Lua loader
         set_loader(bind_args(lua_loader, ctx))
 
@@ -687,8 +689,13 @@ def call_lua_sandbox(
     if TYPE_CHECKING:
         assert ctx.lua_invoke is not None
     lua_exception: Optional[Exception] = None
+    # The time limit belongs to the outermost invocation; nested ones (via
+    # frame:preprocess etc.) run under the same deadline.
+    outermost = len(ctx.lua_frame_stack) == 0
     try:
         ctx.lua_frame_stack.append(frame)
+        if outermost:
+            ctx.lua_set_timeout(timeout)
         ret: tuple[bool, str] = ctx.lua_invoke(
             modname, modfn, frame, ctx.title or "ERROR_TITLE", timeout
         )
@@ -711,6 +718,8 @@ def call_lua_sandbox(
     except lupa.LuaError as e:
         ok, text, lua_exception = False, "", e
     finally:
+        if outermost:
+            ctx.lua_clear_timeout()
         while len(ctx.expand_stack) > stack_len:
             ctx.expand_stack.pop()
     # print("Lua call {} returned: ok={!r} text={!r}"
@@ -719,6 +728,14 @@ def call_lua_sandbox(
         ctx.lua_env_stack.pop()
     if len(ctx.lua_frame_stack) > 0:
         ctx.lua_frame_stack.pop()
+    if (
+        not outermost
+        and lua_exception is not None
+        and "Lua timeout error" in str(lua_exception)
+    ):
+        # The deadline of the outermost invocation has passed while a nested
+        # one (frame:preprocess etc.) was running: let the outermost unwind.
+        raise lua_exception
     if ok:  # XXX should this be "is True" instead of checking truthiness?
         text = str(text) if text is not None else ""
         text = unicodedata.normalize("NFC", text)
